@@ -12,6 +12,7 @@ unset GOTOOLCHAIN GOSUMDB
 cd $WT || exit 2
 git checkout -q -- . ; git clean -fdq
 echo "== $PID mutant$N: demo on the unmodified tree"
+echo "   checks from /verif commit $(git -C ${VERIF_ROOT:-/verif} rev-parse --short HEAD), gocc base $(git rev-parse --short HEAD)"
 ( cd $W/demo$N && bash ./run.sh ) >$W/demo$N.clean.log 2>&1; c=$?
 echo "   exit $c (expected 0)"
 git apply $W/mutant$N.diff || { echo "patch does not apply"; exit 2; }
